@@ -143,6 +143,32 @@ def disj3 : Term :=
 def ifthen1 : Term :=
   SLD.rule (SLD.mk2 "->" (cV 0) (cV 1)) (cConj (cV 0) (cConj (.atom "!") (cV 1)))
 
+/-- `once(P) :- P, !.` -/
+def once1 : Term :=
+  SLD.rule (.app "once" (.cons (cV 0) .nil)) (cConj (cV 0) (.atom "!"))
+
+def onceOK : Bool :=
+  match lookupProc bootState "once" 1 with
+  | some p => decide (p.clauses = [clauseOf once1])
+  | none => false
+
+theorem onceOK_eq : onceOK = true := by decide +kernel
+
+theorem boot_once : ∃ p, lookupProc bootState "once" 1 = some p ∧ p.clauses = [clauseOf once1] := by
+  have h := onceOK_eq
+  unfold onceOK at h
+  split at h
+  · rename_i p hp
+    exact ⟨p, hp, by simpa using h⟩
+  · cases h
+
+theorem clauseC_once1 : clauseC true once1 = true := by decide +kernel
+
+theorem bv_once1 : ∀ x, (SLD.headBody once1).2.hasVar x = true → (SLD.headBody once1).1.hasVar x = true := by
+  intro x hx
+  simp [once1, SLD.headBody, SLD.rule, SLD.mk2, cConj, cV, Term.hasVar, Args.hasVar] at hx ⊢
+  omega
+
 def semiOK : Bool :=
   match lookupProc bootState ";" 2 with
   | some p => decide (p.clauses = [clauseOf ite1, clauseOf ite2, clauseOf disj3])
@@ -213,7 +239,26 @@ theorem solve_ifthen (prog : List Term) (n d nv l : Nat) (c t : Term) (rest : Li
   · simp [SLD.functor, Args.toList, SLD.cutT]
   · intro v hv; cases hv
 
+/-- `once(G)` is `(call(G) -> true)` -/
+theorem solve_once (prog : List Term) (n d nv l : Nat) (g : Term) (rest : List SLD.Frame) (q : Term) (limit : Nat) :
+    SLD.solve false prog (n + 1 + 1) d nv (.goal (.app "once" (.cons g .nil)) l :: rest) q limit =
+      SLD.solveAlts false prog n d nv
+        [.frames [.goal (SLD.call1 (SLD.call1 g)) d, .goal (.atom "!") d, .goal (SLD.call1 (.atom "true")) l]]
+        rest q limit := by
+  rw [SLD.solve]
+  · simp only [SLD.functor, Args.toList, SLD.builtin, List.map_cons, List.map_nil, List.singleton_append]
+    exact solve_ifthen prog n d nv l (SLD.call1 g) (.atom "true") rest q limit
+  · intro v hv; cases hv
+
 /-! ### the VM on the control constructs: not built in -/
+
+theorem builtin_once (n : Nat) (a : Term) (k : Cont) (env : Env) (m : MS) :
+    builtin (n + 1) "once" [a] k env m = none := by
+  rw [builtin]
+  all_goals simp
+
+theorem userPred_once : userPred "once" 1 = false := by simp [userPred, reservedNames]
+
 
 theorem builtin_semi (n : Nat) (a b : Term) (k : Cont) (env : Env) (m : MS) :
     builtin (n + 1) ";" [a, b] k env m = none := by
